@@ -36,13 +36,24 @@ impl EnvConverter {
 
     fn convert_tuple(&self, flds: &[(Rc<str>, Rc<Val>)], w: &mut dyn IOWrite) -> ConvertResult {
         for (name, val) in flds.iter() {
+            // A field that has no representation as a variable is skipped.
+            // The fields after it are still written.
             if val.is_tuple() {
                 eprintln!("Skipping embedded tuple...");
-                return Ok(());
+                continue;
             }
             if let &Val::Empty = val.as_ref() {
                 eprintln!("Skipping empty variable: {}", name);
-                return Ok(());
+                continue;
+            }
+            match val.as_ref() {
+                // Nothing is written for these so the name must not be written
+                // either or it would swallow the next assignment.
+                Val::List(_) | Val::Env(_) | Val::Constraint(_) => {
+                    eprintln!("Skipping variable {} of type {}", name, val.type_name());
+                    continue;
+                }
+                _ => {}
             }
             write!(w, "{}=", name)?;
             self.write(val, w)?;
